@@ -105,7 +105,29 @@ def h_v2(ctx, q1, q2, br1, br2, nbody, lead=True):
     ctx.check("the body is handed over exactly: first '<' to last '>', decoded as UTF-8", text == body)
 
 
-HARNESSES = dict(v1=h_v1, v2=h_v2)
+def h_long(ctx, major, total):
+    """files of several kilobytes: a symbolic non-ASCII character (2-3 bytes in UTF-8) placed so that it straddles or touches a
+    power-of-two offset (4096, 8192, 16384 - where block-wise readers cut), counted from the start of the file or of the body"""
+    if major == 1:
+        head = "OFXHEADER:100\r\nDATA:OFXSGML\r\nVERSION:102\r\nSECURITY:NONE\r\nENCODING:UTF-8\r\nCHARSET:NONE\r\nCOMPRESSION:NONE\r\nOLDFILEUID:NONE\r\nNEWFILEUID:NONE\r\n\r\n"
+    else:
+        head = XML1['"'] + "\r\n" + '<?OFX OFXHEADER="200" VERSION="203" SECURITY="NONE" OLDFILEUID="NONE" NEWFILEUID="NONE"?>' + "\r\n"
+    boundary = ctx.choice("boundary", [4096, 8192, 16384] if total > 16384 else [4096, 8192])
+    origin = ctx.choice("counted_from", ["file", "body"])
+    shift = ctx.choice("shift", [-2, -1, 0])                  # first byte of the character relative to the boundary
+    ch = ctx.str("ch", 1, [(0xA1, 0xFF), (0x20AC, 0x20AC), (0x4E2D, 0x4E2D)])
+    start = "<OFX><MEMO>"
+    at = boundary + shift - (len(head) if origin == "file" else 0) - len(start)        # characters of filler before the symbolic one
+    line = "Lorem ipsum dolor sit amet 0123456789\r\n"
+    filler = (line * (at // len(line) + 1))[:at]
+    tail_len = total - boundary - 64
+    body = start + filler + ch + (line * (tail_len // len(line) + 1))[:tail_len] + "</MEMO></OFX>"
+    data = head.encode("ascii") + body.encode("utf_8")
+    hdr, text = parse_header(make_source(data))
+    ctx.check("the body is handed over exactly: first '<' to last '>', decoded with the declared character set", text == body)
+
+
+HARNESSES = dict(v1=h_v1, v2=h_v2, long=h_long)
 
 META = dict(
     bounds=dict(v1="VERSION 1dd (digits symbolic), SECURITY/ENCODING symbolic tokens, UIDs 1-2 symbolic characters; separator kind A after every "
@@ -121,6 +143,12 @@ META = dict(
 
 
 def instances(tier, seed):
+    long_instances = [dict(name=f"long[v{major},{total}]", harness="long", fn=h_long, params=dict(major=major, total=total), opts=dict(wall_s=600, max_paths=2000))
+                      for major in (1, 2) for total in ((9000,) if tier == "quick" else (9000, 20000))]
+    return _instances(tier, seed) + long_instances
+
+
+def _instances(tier, seed):
     import random
     rnd = random.Random(seed)
     out = []
